@@ -130,9 +130,51 @@ _CAT = {'te': 'try', 'tex': 'try', 'tf': 'try', 'teef': 'try', 'wn': 'with', 'ws
         'wh': 'loop', 'whe': 'loop', 'forx': 'loop', 'forxe': 'loop', 'forl': 'loop', 'mt': 'match', 'mtx': 'match', 'ms': 'match', 'mc': 'match'}
 
 
+_MODOF = {}      # 'cfg:program tag' -> (Mod, function name); filled by run()
+_CTEXT = {}      # c file -> text
+_CDECL = re.compile(r'^\s*(?:CYTHON_UNUSED\s+)?(long|double|int|Py_ssize_t|float)\s+__pyx_v_x;', re.M)
+
+
+def _ctyped(tag, got):
+    """True if in this compiled function x is a C variable (inference picked long/double: such a variable has no unbound
+    state, root cause F-C21-e), judged from the emitted C and, as a fallback, from a garbage value in the compiled log
+    (x can only ever hold 0, 1, a 1-tuple or an exception in this grammar)."""
+    m, fname = _MODOF.get(tag, (None, None))
+    if m is not None and getattr(m, 'c_file', None):
+        txt = _CTEXT.get(m.c_file)
+        if txt is None:
+            try:
+                with open(m.c_file, encoding='utf-8', errors='replace') as fh:
+                    txt = fh.read()
+            except OSError:
+                txt = ''
+            _CTEXT.clear()           # keep one file at a time
+            _CTEXT[m.c_file] = txt
+        mo = re.search(r'^static PyObject \*__pyx_pf_\w+?_\d*%s\([^;]*\) \{$' % fname, txt, re.M)
+        if mo:
+            head = txt[mo.end():mo.end() + 1500]
+            head = head.split('__Pyx_RefNannySetupContext', 1)[0]
+            if _CDECL.search(head):
+                return True
+    if got and got[0] != 'crash':
+        for ent in got[-1]:
+            if len(ent) == 3 and ent[1] in ('int', 'float') and ent[2] not in ('0', '1'):
+                return True
+    return False
+
+
 def _keyfn(tag, inp, exp, got):
     """C21 | config | kind of divergence @ kind of the first divergent site (atom kind; the enclosing path is dropped so
-    that one root cause gives one key; a crash cannot be located and is keyed by the construct categories present)."""
+    that one root cause gives one key; a crash cannot be located and is keyed by the construct categories present).
+    `[ctyped]` is appended when x is a C variable in that compiled function (F-C21-e class: a C variable cannot be
+    unbound), so that the object-typed class of the same site keeps its own key."""
+    key = _keyfn0(tag, inp, exp, got)
+    if '|crash|' not in key and _ctyped(tag, got):
+        key += '[ctyped]'
+    return key
+
+
+def _keyfn0(tag, inp, exp, got):
     cfg, ptag = tag.split(':', 1)
     info = _INFO.get(ptag, {})
     if got[0] == 'crash' or exp is None:
@@ -296,6 +338,10 @@ def run(ctx):
     bad, rej_evals, rej_allfail = _check_rejections(ctx, fns, rejected)
 
     mods = _mods(fns, 'L', {'error_on_uninitialized': False}, input_sets) + _mods(accepted, 'D', None, input_sets)
+    for m in mods:
+        for pt in m.parts:
+            for fu in pt.funcs:
+                _MODOF[fu.tag] = (m, fu.name)
     cc = ConfirmCtx(ctx, _keyfn)
     st = e2.run_diff(cc, mods, keyfn=_keyfn, reach=REACH if ctx.quick else REACH_T)
 
